@@ -124,6 +124,12 @@ func (e *sched) step(st *sState, in ssa.Instruction) {
 				src, ok2 := st.heap[q.id].(*hArray)
 				if ok1 && ok2 && len(dst.elems) == len(src.elems) {
 					copy(dst.elems, src.elems)
+					if e.lenient {
+						if e.cellStoreStep == nil {
+							e.cellStoreStep = map[int]int{}
+						}
+						e.cellStoreStep[p.id] = e.steps
+					}
 					return
 				}
 			}
